@@ -402,6 +402,12 @@ def main(argv=None):
                     print("KNOWN-FINDING: property=%s %s — %s (witness scenario)" % (mod.ID, fid, known[fid].get("what", "")))
     nviol = 0
     rc = 0
+    if bad:
+        cnt = {}
+        for r in bad:
+            for o in sorted(set(v["oracle"] for v in r["violations"])):
+                cnt[o] = cnt.get(o, 0) + 1
+        print("violating runs per oracle: %s" % ", ".join("%s=%d" % kv for kv in sorted(cnt.items())))
     if real:
         os.makedirs(REPLAY_DIR, exist_ok=True)
         seen_oracles = set()
